@@ -116,3 +116,17 @@ def run(ctx):
                rng.random() < 0.5, nmaps=10 if q else 80, nsubs=6 if q else 30)
     stream(ctx, 2, (0, 1), range(16), False, nmaps=8, nsubs=4)
     stream(ctx, 2, (1, 0), range(16), True, nmaps=8, nsubs=4)
+    # the three forms of `let` while a dynamic reordering is served inside the call
+    # (the request forced at the k-th node creation, as in the C09 streams)
+    from . import C09
+    from .. import impl as _impl
+    _impl.install_trigger(True)
+    try:
+        for opname in ('let_bool', 'let_ref', 'let_name', 'compose1'):
+            for _ in range(1 if q else 4):
+                tts = [rng.getrandbits(1 << C09.N) for _ in range(3)]
+                k = 1
+                while k <= (8 if q else 40) and C09.run_one(ctx, opname, tts, k):
+                    k += 1
+    finally:
+        _impl.install_trigger(False)
